@@ -58,7 +58,10 @@ def is_solution(cnf, assignment):
     return True
 
 def solve_cnf(cnf, *, debug=False):
-    cnf = copy(cnf)  # avoid modifying the input
+    # Avoid modifying the input. Repeated literals within a clause are dropped:
+    # a clause like [a, a] would otherwise never be recognised as a unit clause
+    # and the search would not terminate.
+    cnf = [[lit for i, lit in enumerate(clause) if lit not in clause[:i]] for clause in cnf]
     assigns = dict()
     level = 0
     proofs = dict()
